@@ -6,6 +6,7 @@
 //
 // Every step appends its result object(s) to the pool; sources are pool indices.
 #pragma once
+#include <array>
 #include <cmath>
 #include <cstring>
 #include <functional>
@@ -80,6 +81,34 @@ inline void exec(const Step& s, std::vector<Manifold>& pool, const Limits& lim =
     auto sdf = [kind, R](vec3 p) { return kind == 0 ? R - la::length(p) : std::min(R - la::length(p - vec3(0.4, 0, 0)), 0.3 - std::fabs(p.z)); };
     pool.push_back(Manifold::LevelSet(sdf, Box(vec3(-R - 0.5), vec3(R + 0.5)), A(2)));
   }
+  else if (op == "importslices") {
+    // k "orange wedge" solids sharing the two poles BY INDEX: the pole-to-pole edge is used by 2k
+    // triangles and both poles have k*n+1 neighbours (valid oriented input, not 2-manifold);
+    // the triangle order (seeded) decides how the importer pairs the sheets
+    const int k = (int)A(0), n = (int)A(1); hz::Rng r((uint64_t)A(2));
+    MeshGL64 g; g.numProp = 3; auto V = [&](double x, double y, double z) { g.vertProperties.insert(g.vertProperties.end(), {x, y, z}); return (uint64_t)(g.vertProperties.size() / 3 - 1); };
+    const uint64_t v = V(0, 0, 1), w = V(0, 0, -1); std::vector<std::array<uint64_t, 3>> tris;
+    for (int j = 0; j < k; j++) { std::vector<uint64_t> a;
+      for (int i = 0; i < n; i++) { double th = (j + (i + 1.0) / (n + 1.0)) * 2 * 3.14159265358979323846 / k; a.push_back(V(std::cos(th), std::sin(th), 0)); }
+      tris.push_back({a[0], v, w}); tris.push_back({v, a[n - 1], w});
+      for (int i = 0; i + 1 < n; i++) { tris.push_back({v, a[i], a[i + 1]}); tris.push_back({w, a[i + 1], a[i]}); } }
+    for (size_t i = tris.size(); i > 1; --i) std::swap(tris[i - 1], tris[r.below(i)]);
+    for (auto& t : tris) for (auto x : t) g.triVerts.push_back(x);
+    pool.push_back(Manifold(g));
+  }
+  else if (op == "importglued") {
+    // tetrahedra / cubes glued at a shared vertex or edge by index (directed edges repeat)
+    const int kind = (int)A(0), copies = 2 + (int)A(1) % 3; hz::Rng r((uint64_t)A(2));
+    MeshGL64 g; g.numProp = 3; auto V = [&](double x, double y, double z) { g.vertProperties.insert(g.vertProperties.end(), {x, y, z}); return (uint64_t)(g.vertProperties.size() / 3 - 1); };
+    const uint64_t p = V(0, 0, 0), q = V(0, 0, 1); std::vector<std::array<uint64_t, 3>> tris;
+    for (int c = 0; c < copies; c++) { double th = c * 2 * 3.14159265358979323846 / copies, th2 = th + 0.9;
+      uint64_t a = V(std::cos(th), std::sin(th), 0.2), b = V(std::cos(th2), std::sin(th2), 0.8), e0 = kind == 0 ? q : V(0.1 * std::cos(th), 0.1 * std::sin(th), 1);
+      // tetrahedron (p, e0, a, b): shares the edge p-q (kind 0) or only the vertex p (kind 1)
+      tris.push_back({p, a, e0}); tris.push_back({p, e0, b}); tris.push_back({p, b, a}); tris.push_back({e0, a, b}); }
+    for (size_t i = tris.size(); i > 1; --i) std::swap(tris[i - 1], tris[r.below(i)]);
+    for (auto& t : tris) for (auto x : t) g.triVerts.push_back(x);
+    pool.push_back(Manifold(g));
+  }
   else if (op == "import") pool.push_back(Manifold(S(0).GetMeshGL64()));
   else if (op == "import32") pool.push_back(Manifold(S(0).GetMeshGL()));
   else if (op == "copy") pool.push_back(S(0));
@@ -136,6 +165,8 @@ struct Gen {
       case 6: s.op = "revolve"; s.arg = {(double)r.below(5), (double)(3 + r.below(14)), r.below(2) ? 360.0 : 40.0 + 40 * r.below(7)}; break;
       default: s.op = "levelset"; s.arg = {(double)r.below(2), 1.0, 0.25 + 0.05 * r.below(4)}; break;
     }
+    if (r.below(7) == 0) { if (r.below(2)) { s.op = "importslices"; s.arg = {(double)(2 + r.below(2)), (double)(2 + r.below(r.below(2) ? 6 : 38)), (double)r.below(100000)}; }
+      else { s.op = "importglued"; s.arg = {(double)r.below(2), (double)r.below(3), (double)r.below(100000)}; } s.src.clear(); }
     return s;
   }
   Step next() {
